@@ -136,6 +136,279 @@ def _key_consistency(run, rule, project, modname, tabs, ev, modfuncs):
             run.holds(rule, us[0][0], us[0][1].node, "table `%s`: every access spells its key the same way" % tname, table=tname)
 
 
+# calls whose result describes the state of the outside world at the moment of the call (files, directories, URLs): a
+# remembered copy goes stale when another process -- or a later step of this one -- changes that state
+_VOLATILE_FUNCS = {"open", "os.path.isdir", "os.path.exists", "os.path.isfile", "os.path.getmtime", "os.path.getsize", "os.stat", "os.listdir",
+                   "os.scandir", "os.walk", "os.access", "os.path.lexists", "os.path.islink", "glob.glob", "glob", "np.load", "numpy.load", "fits.open"}
+_VOLATILE_METHODS = {"from_file", "from_url", "read_image", "read_text", "read_bytes", "exists", "is_dir", "is_file", "stat", "iterdir", "load_path", "open"}
+
+
+def volatile_reads(t):
+    """Names of the calls inside a term that read the outside world."""
+    out = []
+
+    def walk(x):
+        if isinstance(x, tuple):
+            if x and x[0] == "call":
+                nm = show(x[1])
+                if nm in _VOLATILE_FUNCS or nm.split(".")[-1] in ("isdir", "isfile", "getmtime", "getsize", "listdir", "scandir", "lexists") \
+                        or (x[1][0] == "attr" and x[1][2] in _VOLATILE_METHODS and nm not in ("self.exists",)):
+                    out.append(nm[:60])
+            for y in x:
+                if isinstance(y, tuple):
+                    walk(y)
+    walk(t)
+    return out
+
+
+_CACHE_DECORATORS = ("lru_cache", "cache", "cached_property", "memoize", "memoized")
+
+
+def check_cached_functions(run, rule, modname):
+    """Functions memoised by a decorator (functools.lru_cache / cache): the key is the argument tuple, so it is complete by
+    construction -- but the remembered value must not be a reading of the outside world (a file parsed, a directory tested).
+    Returns the number of decorated functions examined."""
+    project = run.project
+    n = 0
+    ev = sym.make_evaluator(project, modname, [], inline_local=True)
+    for f in project.functions_in(modname):
+        if f.module.kind != "py":
+            continue
+        decos = [(dotted(d.func if isinstance(d, ast.Call) else d) or "") for d in f.node.decorator_list]
+        if not any(d.split(".")[-1] in _CACHE_DECORATORS for d in decos):
+            continue
+        n += 1
+        run.note_func(f)
+        try:
+            r = ev.run(f.node)
+        except Exception:
+            run.undecided(rule, f, None, "cannot evaluate the memoised function %s" % f.short, kind="memo-decorated-unevaluated")
+            continue
+        reads = []
+        for pc, v, node in r.returns:
+            reads += volatile_reads(v)
+        for e in r.events:
+            if e.kind == "call":
+                reads += volatile_reads(e.term)
+        if reads:
+            run.violated(rule, f, f.node, "%s is memoised by its arguments (%s) but its result is read from the outside world (%s): when the file / directory "
+                         "changes -- e.g. the output is regenerated -- later calls still get the remembered, stale result" % (
+                             f.short, ", ".join(f.params()) or "none", ", ".join(sorted(set(reads)))[:120]), kind="memo-of-volatile", reads=sorted(set(reads)))
+        else:
+            run.holds(rule, f, f.node, "%s is memoised by its arguments and reads nothing from the outside world" % f.short)
+    return n
+
+
+def _root_path(t):
+    """'self._a' / 'self' for an attribute chain rooted at a symbol, else None."""
+    if t[0] == "sym":
+        return t[1]
+    if t[0] == "attr":
+        b = _root_path(t[1])
+        return None if b is None else b + "." + t[2]
+    return None
+
+
+def attribute_caches(project, modname):
+    """Attribute caches of the classes of *modname*: a method stores `self.X = V` only while `self.X is None` (compute once,
+    remember on the object).  -> [(class name, X, method Func, store event, dependencies)], where dependencies is the set of
+    attribute names of self the remembered value was computed from, or None for "the object as a whole" (self passed on /
+    a method of self called)."""
+    out = []
+    ev = sym.make_evaluator(project, modname, [])
+    for f in project.functions_in(modname):
+        if f.module.kind != "py" or f.cls is None or "self" not in ([a.arg for a in f.node.args.args][:1]):
+            continue
+        if not any(isinstance(n, ast.Attribute) and isinstance(n.ctx, ast.Store) and isinstance(n.value, ast.Name) and n.value.id == "self" for n in own_nodes(f.node)):
+            continue
+        try:
+            r = ev.run(f.node)
+        except Exception:
+            continue
+        for e in r.events:
+            if e.kind != "store" or e.term[1][0][0] != "attr" or e.term[1][0][1] != ("sym", "self"):
+                continue
+            x = e.term[1][0][2]
+            me = ("attr", ("sym", "self"), x)
+            guarded = any(pol and c == ("op", "cmp:Is", tuple(sorted((me, sym.NONE), key=sym._key))) for c, pol in e.pc if c != "loop" and c[0] != "loop")
+            if not guarded:
+                continue
+            val = e.term[1][1]
+            if val == sym.NONE:
+                continue
+            # "compute once and hand out": the method's result is the remembered attribute (filling in a default for a
+            # configuration attribute -- `if self.out_dir is None: self.out_dir = ...` -- is not a cache)
+            if not any(me in _all_subterms(v) or val in _all_subterms(v) for _pc, v, _n in r.returns):
+                continue
+            deps = set()
+            whole = False
+            for a in sym.atoms_of(val) | set(_all_subterms(val)):
+                if a == ("sym", "self"):
+                    pass
+            for tsub in _all_subterms(val):
+                if tsub[0] == "call":
+                    if tsub[1][0] == "attr" and tsub[1][1] == ("sym", "self"):
+                        whole = True            # a method of self computes it
+                    if ("sym", "self") in tsub[2] or any(v == ("sym", "self") for _k, v in tsub[3]):
+                        whole = True            # self handed to someone else
+                if tsub[0] == "attr" and tsub[1] == ("sym", "self") and tsub[2] != x:
+                    deps.add(tsub[2])
+            out.append((f.cls.name, x, f, e, None if whole else deps))
+    return out
+
+
+def _all_subterms(t, acc=None):
+    acc = [] if acc is None else acc
+    if isinstance(t, tuple):
+        if t and isinstance(t[0], str):
+            acc.append(t)
+        for y in t:
+            if isinstance(y, tuple):
+                _all_subterms(y, acc)
+    return acc
+
+
+def check_attribute_caches(run, rule, modname, writer_modules=None):
+    """A value remembered on the object (see attribute_caches) must be forgotten whenever something it was computed from
+    changes.  Writers of those attributes are looked for in the whole package: construction of a fresh object is fine (the
+    cache starts empty), a method or helper that changes them on an object that may already carry a remembered value (self
+    outside __init__, a copy of an existing object) must reset the cache in the same function.  A cache computed from the
+    object as a whole, or from a public data attribute that callers may assign, with nothing invalidating it, is reported too.
+    Returns the number of caches found."""
+    project = run.project
+    caches = attribute_caches(project, modname)
+    if not caches:
+        return 0
+    evs = {}
+    for cname, x, f, e, deps in caches:
+        run.note_func(f)
+        cls_q = modname + "." + cname
+        problems = []
+        # public data attributes of the class: assigned on self / on a fresh instance in __init__ or a factory, not properties
+        cls_node = f.cls
+        props = {m.name for m in cls_node.body if isinstance(m, ast.FunctionDef) and any((dotted(d) or "").endswith(("property", "setter")) for d in m.decorator_list)}
+        public = set()
+        for m in cls_node.body:
+            if isinstance(m, ast.FunctionDef):
+                for n in ast.walk(m):
+                    if isinstance(n, ast.Attribute) and isinstance(n.ctx, ast.Store) and not n.attr.startswith("_") and n.attr not in props \
+                            and isinstance(n.value, ast.Name) and n.value.id in ("self", "inst", "obj", "new"):
+                        public.add(n.attr)
+            if isinstance(m, ast.Assign):
+                for t_ in m.targets:
+                    if isinstance(t_, ast.Name) and not t_.id.startswith("_"):
+                        public.add(t_.id)
+        reads_public = sorted(public if deps is None else (deps & public))
+        # writers
+        for g in project.py_funcs():
+            if "/tests/" in g.module.relpath or (writer_modules is not None and g.module.name not in writer_modules):
+                continue
+            names = {n.attr for n in own_nodes(g.node) if isinstance(n, ast.Attribute) and isinstance(n.ctx, ast.Store)}
+            watch = names if deps is None else (names & deps)
+            watch = {w for w in watch if w != x}
+            if not watch:
+                continue
+            in_class = g.cls is not None and g.cls.name == cname and g.module.name == modname
+            mentions_class = in_class or any(isinstance(n, ast.Name) and n.id in (cname, "copy", "deepcopy") for n in own_nodes(g.node))
+            if not mentions_class:
+                continue
+            ev = evs.setdefault(g.module.name, sym.make_evaluator(project, g.module.name, []))
+            try:
+                rg = ev.run(g.node)
+            except Exception:
+                continue
+            stores = [s_ for s_ in rg.events if s_.kind == "store" and s_.term[1][0][0] == "attr"]
+            resets = {s_.term[1][0][1] for s_ in stores if s_.term[1][0][2] == x and s_.term[1][1] == sym.NONE}
+            for s_ in stores:
+                recv, name = s_.term[1][0][1], s_.term[1][0][2]
+                if name not in watch:
+                    continue
+                fresh = False
+                if recv[0] == "call":
+                    callee = show(recv[1])
+                    if callee in (cname, "cls", "cls.__new__", "object.__new__", cname + ".__new__") or callee.endswith("." + cname):
+                        fresh = True
+                    is_copy = callee.split(".")[-1] in ("copy", "deepcopy")
+                    if not fresh and not is_copy:
+                        continue            # some other object
+                elif recv == ("sym", "self"):
+                    if not in_class:
+                        continue
+                    if g.name == "__init__":
+                        fresh = True
+                else:
+                    continue
+                if fresh or recv in resets:
+                    continue
+                problems.append((g, s_, "%s changes `%s` of %s without resetting `%s`" % (g.short, name, "a copy of an existing object (which carries the remembered value along)"
+                                                                                     if recv[0] == "call" else "the object", x)))
+        if problems:
+            g, s_, msg = problems[0]
+            run.violated(rule, g, s_.node, "%s.%s remembers a value computed from %s in `%s`; %s: later answers are the stale remembered value" % (
+                cname, f.name, "the object's state" if deps is None else sorted(deps), x, msg), kind="attribute-cache-stale", cache=x)
+        elif reads_public:
+            run.violated(rule, f, e.node, "%s.%s remembers its result in `%s`, but the result depends on the public attribute(s) %s, which callers may assign after the first "
+                         "call; nothing forgets the remembered value then" % (cname, f.name, x, reads_public[:4]), kind="attribute-cache-public-input", cache=x)
+        else:
+            run.holds(rule, f, e.node, "%s.%s: the value remembered in `%s` is computed from attributes that only construction writes" % (cname, f.name, x))
+    return len(caches)
+
+
+def check_global_memos(run, rule, modname):
+    """A module-level variable that a function both consults and rebinds (`global G`): "the result of the previous call".
+    The new value is stored under a guard that compares what G held with some inputs (the key); as for tables, everything the
+    stored value depends on must be part of that comparison.  Returns the number of such variables examined."""
+    project = run.project
+    ev = sym.make_evaluator(project, modname, [])
+    n = 0
+    for f in project.functions_in(modname):
+        if f.module.kind != "py":
+            continue
+        gnames = {nm for st in own_nodes(f.node) if isinstance(st, ast.Global) for nm in st.names}
+        if not gnames:
+            continue
+        try:
+            # what the variable holds on entry is whatever an earlier call left there, not the module's initial value
+            r = ev.run(f.node, env={g: ("sym", g) for g in gnames})
+        except Exception:
+            continue
+        params = set(f.params())
+        for g in sorted(gnames):
+            gsym = ("sym", g)
+            assigns = [e for e in r.events if e.kind == "assign" and e.term[1][0] == gsym]
+            reads = any(isinstance(x, ast.Name) and x.id == g and isinstance(x.ctx, ast.Load) for x in own_nodes(f.node))
+            if not assigns or not reads:
+                continue
+            n += 1
+            run.note_func(f)
+            for e in assigns:
+                val = e.term[1][1]
+                if val == sym.NONE or val[0] == "const":
+                    run.holds(rule, f, e.node, "global `%s` is reset to a constant" % g, table=g)
+                    continue
+                vol = volatile_reads(val)
+                if vol:
+                    run.violated(rule, f, e.node, "global `%s` remembers a reading of the outside world (%s)" % (g, ", ".join(sorted(set(vol)))[:100]), kind="memo-of-volatile", table=g)
+                    continue
+                # the key: inputs compared with the old content of G on the way to this store
+                kp = set()
+                for c, _pol in e.pc:
+                    if c == "loop" or c[0] == "loop":
+                        continue
+                    if any(a == gsym or (a[0] == "sym" and a[1].split("@")[0] == g) for a in atoms_of(c)) or gsym in _all_subterms(c):
+                        kp |= {p_ for p_ in _paths(c) if p_.split(".")[0].split("#")[0].split("[")[0] != g}
+                vp = {p_ for p_ in _paths(val) if p_.split(".")[0].split("#")[0].split("[")[0].split("@")[0] in params}
+                missing = {p_ for p_ in vp if not any(p_ == q or p_.startswith(q + ".") or p_.startswith(q + "#") or p_.startswith(q + "[") for q in kp)}
+                if missing:
+                    run.violated(rule, f, e.node, "module-level `%s` remembers the previous result and is reused when %s matches, but the remembered value also depends on %s: "
+                                 "a call with the same %s and a different %s gets the previous (wrong) result" % (
+                                     g, sorted(kp) or "nothing", ", ".join(sorted(missing))[:120], sorted(kp)[0] if kp else "arguments", sorted(missing)[0]),
+                                 kind="memo-key-incomplete", table=g, missing=sorted(missing))
+                else:
+                    run.holds(rule, f, e.node, "global `%s`: the remembered value is determined by what it is compared with" % g, table=g)
+    return n
+
+
 def check_module(run, rule, modname, funcs=None, only_funcs=None):
     """Apply both shared-state rules to the functions of *modname*.
     Returns the number of table uses examined."""
@@ -157,6 +430,10 @@ def check_module(run, rule, modname, funcs=None, only_funcs=None):
     mod = project.mod(modname)
     defined_funcs = {n.name for n in mod.tree.body if isinstance(n, (ast.FunctionDef, ast.ClassDef))}
     _key_consistency(run, rule, project, modname, tabs, ev, modfuncs)
+    n_uses += check_cached_functions(run, rule, modname)
+    if only_funcs is None:
+        n_uses += check_attribute_caches(run, rule, modname)
+        n_uses += check_global_memos(run, rule, modname)
     for f in modfuncs:
         if f.module.kind != "py":
             continue
@@ -204,6 +481,13 @@ def check_module(run, rule, modname, funcs=None, only_funcs=None):
                         # stand for values that differ from call to call)
                     if not any(p == q or p.startswith(q + ".") or p.startswith(q + "#") or p.startswith(q + "[") for q in kp):
                         missing.add(p)
+                vol = volatile_reads(val)
+                if vol:
+                    run.violated(rule, f, e.node, "%s table `%s` remembers a reading of the outside world (%s) under key %s: when another process (a parallel "
+                                 "worker) or a later step changes that state, this object keeps answering from its stale copy" % (
+                                     {"module": "module-level", "class": "class-level", "instance": "instance"}[kind], name, ", ".join(sorted(set(vol)))[:100],
+                                     show(key)[:80]), kind="memo-of-volatile", table=name, reads=sorted(set(vol)))
+                    continue
                 if missing:
                     run.violated(rule, f, e.node, "%s table `%s` is keyed by %s, but the stored value also depends on %s: a later call "
                                  "with the same key and a different %s gets the remembered (wrong) result" % (
